@@ -20,6 +20,7 @@ import (
 	"context"
 	"encoding/json"
 	"fmt"
+	"hash/fnv"
 	"math/rand/v2"
 	"net"
 	"net/http"
@@ -387,6 +388,16 @@ func TestVerifC05(t *testing.T) {
 		nSched = vutil.Atoi(v)
 	}
 	gen := func(r *rand.Rand, emit vutil.Emit) {
+		// the findings still excluded from the per-program theorems, as the
+		// regenerated tables list them
+		var ids []string
+		for id := range c05util.StaticKnown() {
+			ids = append(ids, id)
+		}
+		sort.Strings(ids)
+		for _, id := range ids {
+			emit("C05.static", id)
+		}
 		for _, n := range []int{0, 1, 2, 5} {
 			emit("C05.pend", vutil.Itoa(n))
 		}
@@ -403,6 +414,8 @@ func TestVerifC05(t *testing.T) {
 			return c05RunPend(f)
 		case "C05.run":
 			return c05util.RunStress("TestVerifC05Child", f)
+		case "C05.static":
+			return c05Static(f[1])
 		default:
 			panic("unknown op " + f[0])
 		}
@@ -884,6 +897,45 @@ func (w *c05World) adminOp(kind string, i int, r *rand.Rand) {
 	}
 }
 
+// c05Static reports the items of a finding that the regenerated tables still
+// exclude from the per-program theorems: their number, a digest of the exact
+// list (so that a different list is a different reason class), and the list.
+func c05Static(finding string) []string {
+	items := c05util.StaticKnown()[finding]
+	h := fnv.New32a()
+	_, _ = h.Write([]byte(strings.Join(items, "\n")))
+
+	return []string{vutil.Itoa(len(items)), fmt.Sprintf("%08x", h.Sum32()), vutil.Hex(strings.Join(items, "\n"))}
+}
+
+// c05WellFormed checks a response the way a stub resolver does: it answers
+// this query (ID, QR bit, opcode and the question echoed), has an rcode the
+// server is allowed to produce, every record of the answer section is of the
+// query's class, and the message can be packed again.  (That it could be
+// parsed at all is checked by the client: a malformed packet is an error.)
+func c05WellFormed(req, resp *dns.Msg) (ok bool) {
+	if resp == nil || resp.Id != req.Id || !resp.Response || resp.Opcode != req.Opcode || len(resp.Question) != 1 {
+		return false
+	}
+	q, rq := req.Question[0], resp.Question[0]
+	if !strings.EqualFold(rq.Name, q.Name) || rq.Qtype != q.Qtype || rq.Qclass != q.Qclass {
+		return false
+	}
+	switch resp.Rcode {
+	case dns.RcodeSuccess, dns.RcodeNameError, dns.RcodeRefused, dns.RcodeServerFailure:
+	default:
+		return false
+	}
+	for _, rr := range resp.Answer {
+		if rr == nil || rr.Header().Class != q.Qclass {
+			return false
+		}
+	}
+	_, err := resp.Pack()
+
+	return err == nil
+}
+
 // enableBurst waits until the periodic refresh of the updates loop is
 // downloading the gated list, makes batches of concurrent EnableFilters(true)
 // calls (what set_rules, add_url, remove_url, set_url and filtering/config end
@@ -955,6 +1007,9 @@ func TestVerifC05Child(t *testing.T) {
 		wiring = f[7]
 	}
 	w := c05NewWorld(t, dir, wiring)
+	// Cross-check of the extractor: record the order in which the locks of
+	// these objects are really acquired (see c05util/lockobs.go).
+	c05util.ObserveLocks(w.srv, w.flt, w.st, w.ql, w.storage)
 
 	var served, malformed, adminOps atomic.Int64
 	var inflight sync.Map // goroutine id -> what it is doing
@@ -987,14 +1042,10 @@ func TestVerifC05Child(t *testing.T) {
 				req := (&dns.Msg{}).SetQuestion(name, dns.TypeA)
 				inflight.Store(g, "query "+name)
 				resp, _, err := cl.Exchange(req, addr)
-				switch {
-				case err != nil:
-					malformed.Add(1)
-				case resp.Id != req.Id || !resp.Response || len(resp.Question) != 1 ||
-					!strings.EqualFold(resp.Question[0].Name, name):
-					malformed.Add(1)
-				default:
+				if err == nil && c05WellFormed(req, resp) {
 					served.Add(1)
+				} else {
+					malformed.Add(1)
 				}
 			}
 			inflight.Store(g, "done")
@@ -1079,6 +1130,7 @@ func TestVerifC05Child(t *testing.T) {
 		res.Deadlock = true
 		res.Stuck = c05util.StuckKey(string(buf))
 		res.Served, res.Malformed, res.AdminOps = int(served.Load()), int(malformed.Load()), int(adminOps.Load())
+		res.Edges, res.LockOps = c05util.ObservedEdges()
 		write()
 		os.Exit(3)
 	}
@@ -1088,6 +1140,7 @@ func TestVerifC05Child(t *testing.T) {
 		res.PanicMsg = m
 	}
 	res.Done = true
+	res.Edges, res.LockOps = c05util.ObservedEdges()
 	write()
 	// no orderly shutdown: the observation is complete, and the race log is
 	// flushed as reports happen
